@@ -64,12 +64,18 @@ CLAIMED = {
              "needle_limit_reported_iff: the limit is compared with a block start and with an index into the carry buffer - a documented quirk), with "
              "soundness (needle_limit_sound) and completeness for occurrences ending before the limit (needle_limit_complete, limitKeeps_before) as "
              "corollaries. The ArtifactKit scanner reports exactly artifactHits with payload = xor(slice, key) "
-             "(artifact_exact, artifact_offsets_iff, artifact_payload). Loops are well-founded recursions (termination proved, no fuel).",
+             "(artifact_exact, artifact_offsets_iff, artifact_payload). Loops are well-founded recursions (termination proved, no fuel). "
+             "iter_find_needle and iter_artifactkit_payloads are translated from their source text on every run (tools/gen/py_scan.py -> "
+             "Gen/PyScan.lean; the file object threaded as a value, io.DEFAULT_BUFFER_SIZE a parameter) and proved equal to the model for every "
+             "file (content, position, kind), every argument incl. the empty needle, B = 0 and a negative limit, and every fuel above the file "
+             "length (C15Gen.gen_iter_find_needle, gen_iter_artifactkit_payloads; needle_exact, needle_limit_exact, artifact_exact restated).",
         note="CPython bytes.find, slicing and file-object semantics are modelled (bytesFind?/PyFile) and exercised by dedicated streams, not verified; "
              "u32/xor reuse the C20 models. Correspondence: exhaustive over alphabet {00,01,ff} (haystacks <=7 x needles <=3 x B 1..5 x start x limit), "
              "planted boundary-straddling occurrences for B in {1,3,7,64,8192}, BytesIO and real files. Under a limit the streams are property-relevant with an independent closed-form oracle "
              "(limits on every block start +-1 and on the buffer index of planted occurrences +-1). Empty needle and B=0 are outside the property.",
-        design="§4 C15",
+        design="§4 C15, §12.5",
+        technique="Lean 4 theorems about an executable model; model tied to the code by source-to-Lean translation (proved equal) and by a "
+                  "model/implementation correspondence check",
     ),
     "C16": dict(
         text="Lean theorems over an executable model of parse_raw_http: the body is everything after the first CRLFCRLF (body_preserved); a start "
@@ -183,12 +189,17 @@ CLAIMED = {
              "exactly the literal whatever follows (literal_single_token); the regex is modelled both as a derived scanner and as a literal "
              "lazy/backtracking reading and the two are proved equal (scanString_eq_rxMatch). Every documented escape decodes to its byte between "
              "arbitrary units (escape_table, decode_units); a trailing backslash is kept and truncated escapes raise ValueError. The grammar's STRING "
-             "pattern is a generated obligation (pattern_is_modelled).",
+             "pattern is a generated obligation (pattern_is_modelled). value_to_string, string_token_to_bytes and the class StringIterator are "
+             "translated from their source text on every run (tools/gen/py_c2prof.py -> Gen/PyC2Prof.lean; the iterator object threaded through "
+             "its methods, StopIteration explicit) and proved equal to the model for all bytes, all latin-1 str and every STRING token of arbitrary "
+             "code points (C12Gen.gen_value_to_string(_str), gen_string_token_to_bytes; literal_roundtrip, literal_single_token restated).",
         note="CPython built-ins (repr(bytes), str.replace, int(s,16) for |s|<=2, bytes()) and re are modelled and compared exhaustively (all byte "
              "strings of length <=2 over 0x00-0xff, length <=4 over the syntax alphabet; scanner vs re.match on all strings <=6/8 over a 4-letter "
              "alphabet). Lark's parser/contextual lexer is not modelled: embedded literals are compared against from_text().as_dict() and lark's own "
              "lexer. Oracle: decode(encode b) = b, ast.literal_eval of the text = b, exactly one STRING token.",
-        design="§4 C12",
+        design="§4 C12, §12.5",
+        technique="Lean 4 theorems about an executable model; model tied to the code by source-to-Lean translation (proved equal) and by a "
+                  "model/implementation correspondence check",
     ),
     "C09": dict(
         text="Machine-checked refinement (Lean 4): for every layout stub++nonce(4)++size(4)++enc, every nonce, both kinds of underlying file and "
@@ -199,14 +210,20 @@ CLAIMED = {
              "REAL marker scanner (the C15 model of iter_find_needle, every buffer size): candidates are exactly marker hits + size-relation "
              "offsets (real_candidates_characterised, true_offset_is_candidate_real), tried in Counter.most_common order, the first passing the MZ "
              "check wins, ValueError otherwise (detect_ok_iff_real, detect_first_passing_real, detect_rejects_real, detect_sound_real), and a stage "
-             "whose decoded content starts with a PE image is found under byte-level hypotheses only (detect_correct_real_clean).",
+             "whose decoded content starts with a PE image is found under byte-level hypotheses only (detect_correct_real_clean). "
+             "iter_nonce_offsets and XorEncodedFile.__init__ / read_nonce / tell / seek / read are translated from their source text on every run "
+             "(tools/gen/py_xor.py -> Gen/PyXor.lean; the view object owning its file threaded through every method) and proved equal to the "
+             "model for every file, offset, whence and size (C09Gen.gen_*, 17 theorems); the refinement is restated for histories run through the "
+             "translated methods (gen_history_refines_all_seeks, gen_read_refines).",
         note="Inherent partial: detect_correct_* need NoSpuriousCandidate (the code returns the first passing candidate). The marker-scan limit cut "
              "is exact for B >= maxrange+3 (the shipped 8192/1024) and sound/complete/bounded for every B. Out of model: seek offsets beyond the "
              "file-offset limits (2^44 on this ext4, 2^63 - (nonce_offset+8) on BytesIO), whence < 0, closed files. PyFile, Counter.most_common and "
              "cstruct reads are modelled, not verified. Tied to the code by ~35k (quick) / ~390k (thorough) in-process comparisons on BytesIO and on "
              "buffered and unbuffered temp files incl. negative seeks and invalid whence values, with a plain io.BytesIO replay as independent oracle; "
              "exhaustive (seek p, read n, tell, read m, tell) for len <= 9 (<= 13 thorough). Two defects found here were repaired (fix: f64b15d, 13416c7).",
-        design="§4 C09",
+        design="§4 C09, §12.5",
+        technique="Lean 4 theorems about an executable model; model tied to the code by source-to-Lean translation (proved equal) and by a "
+                  "model/implementation correspondence check",
     ),
     "C17": dict(
         text="Lean proof: an unmasked Guardrails configuration is reported only if payload_checksum+1 equals the stored checksum (only_if_checksum, "
@@ -257,14 +274,18 @@ CLAIMED = {
              "(derivation_unique, unique_readability, unique_readability_gen), the model parser is complete and exactly characterised "
              "(parse_complete, parse_spec: it returns d iff d is a well-formed start derivation with those token texts), and every derivation's text "
              "parses back to it (text_of_derivation_parses). Table obligations additionally state that every alias is printed under its own "
-             "keyword (gen_aliasesDistinctPerKeyword, gen_labelNaming with a pinned exception list) - exactly what the repaired module_x64 alias bug violated.",
+             "keyword (gen_aliasesDistinctPerKeyword, gen_labelNaming with a pinned exception list) - exactly what the repaired module_x64 alias bug violated. "
+             "The whitespace post-processor nested in as_text is translated from its source (tools/gen/py_c2text.py) and proved equal to "
+             "C10.postproc for every item list (C10Gen.gen_as_text_postproc; postproc_tokens, as_text_relex restated).",
         note="Lark's LALR parser, contextual lexer and Earley-based Reconstructor are modelled and compared, not verified: tree, printed items, exact "
              "as_text text, re-lex and re-parse on ~3.2k profiles (quick) / ~55k (thorough) covering every form, plus mutated/hand-made trees, token "
              "soups, arbitrary postproc inputs and malformed sentences. The earlier ParseWF was too weak (three 3-form counter-example tables are "
              "kept and refuted: parseWF0_ambiguous, parseWF0_too_weak); the strengthened ParseWF/ParseWFT/DepthOK hold for the generated table by "
              "decide +kernel. Still trusted: that Lark's LALR(1) parser computes the model parser's function. The '# dns_resolver' production is "
              "unreachable from text.",
-        design="§4 C10",
+        design="§4 C10, §12.5",
+        technique="Lean 4 theorems about an executable model; model tied to the code by source-to-Lean translation (proved equal) and by a "
+                  "model/implementation correspondence check",
     ),
     "C07": dict(
         text="Machine-checked (Lean 4) composition of the C04, C05, C06 and C16 theorems: for every well-formed, wire-safe HTTP configuration, every "
